@@ -93,7 +93,8 @@ def main(argv=None):
             print(f"MACHINERY-FAILURE property={prop}: clause {f['clause']} {json.dumps(f.get('detail'))[:200]}",
                   file=sys.stderr)
         return 2
-    mine = [f for f in out.fails if prop in f["prop"].split(",")]
+    # TIMEOUT: a call into the real code did not return within the watchdog limit - no verdict was produced
+    mine = [f for f in out.fails if prop in f["prop"].split(",") or f["prop"] == "TIMEOUT"]
     entries = findings.load()
     known, new = {}, []
     for f in mine:
